@@ -22,6 +22,8 @@ CONSTANTS XS,         \* party points (distinct, non-zero); Doerner: two of them
           RefPolys,   \* zero-constant polynomials a refresh may deal (sum of all dealers)
           Indices,    \* child indices offered to Derive
           MaxOps,     \* number of transforming operations before the probe
+          Kinds,      \* probe kinds: "sign", "reconstruct", and for CMP "online" (presign first, sign later)
+          SubsetRefresh, \* TRUE: a refresh may also be ATTEMPTED by a strict subset of the shareholders (FROST takes a participant list)
           EmitHist
 
 VARIABLES ver,    \* sequence of all versions created so far: [epoch, path, share, key]
@@ -93,6 +95,16 @@ Derive(i) ==
                     key |-> IF flip THEN Fneg(k1) ELSE k1],
                    [op |-> "derive", idx |-> i])
 
+\* A refresh among a strict subset S of the shareholders (still more than T of them) would leave the others with shares of
+\* the old polynomial while their public shares are rewritten: it must be refused.  The attempt is recorded in the
+\* history; it creates no version.
+RefreshBySubset(S) ==
+  /\ CanTransform /\ SubsetRefresh /\ ~Additive
+  /\ S \subseteq XS /\ S # XS /\ Cardinality(S) > T
+  /\ (IF ops = <<>> THEN TRUE ELSE ops[Len(ops)].op # "refresh-subset")
+  /\ ops' = Append(ops, [op |-> "refresh-subset", S |-> S, expect |-> "refused"])
+  /\ UNCHANGED <<ver, held, probe>>
+
 \* party x serialises its current material and restores it: nothing changes
 StoreRestore(x) ==
   /\ CanTransform /\ ops # <<>> /\ ops[Len(ops)].op # "store"
@@ -102,14 +114,17 @@ StoreRestore(x) ==
 SameVersion(S, pick) == \A x, y \in S : pick[x] = pick[y]
 \* for a reconstruction only the share values matter: in the two-party additive scheme a derivation changes one
 \* party's share only, so the other party's share of the parent version IS its share of the child version
+\* (only there: with Shamir sharing two versions' shares coincide in GF(Q) by accident, never in the real group)
 SameShares(S, pick) == \E v \in 1..Len(ver) : \A x \in S : ver[pick[x]].share[x] = ver[v].share[x]
 
+\* kind "online" (CMP): the signers first produce a presignature with the OLDEST version any of them picked (all of them
+\* hold it), later each signs with the version it picked; the expectation is the same: a signature iff all use one version
 Probe(kind, S, pick) ==
   /\ probe = NoProbe /\ S # {} /\ S \subseteq XS
   /\ \A x \in S : pick[x] \in held[x]
   /\ probe' = [kind |-> kind, S |-> S, pick |-> pick,
                expect |-> IF ~Enough(S) THEN "refused"
-                          ELSE IF SameVersion(S, pick) \/ (kind = "reconstruct" /\ SameShares(S, pick)) THEN "ok"
+                          ELSE IF SameVersion(S, pick) \/ (kind = "reconstruct" /\ Additive /\ SameShares(S, pick)) THEN "ok"
                           ELSE "mixed"]
   /\ UNCHANGED <<ver, held, ops>>
 
@@ -117,7 +132,8 @@ Next ==
   \/ \E z \in RefPolys : IF Additive THEN RefreshAdd(z[2]) ELSE Refresh(z)
   \/ \E i \in Indices : Derive(i)
   \/ \E x \in XS : StoreRestore(x)
-  \/ \E kind \in {"sign", "reconstruct"}, S \in SUBSET XS :
+  \/ \E S \in SUBSET XS : RefreshBySubset(S)
+  \/ \E kind \in Kinds, S \in SUBSET XS :
         \E pick \in [S -> 1..Len(ver)] : Probe(kind, S, pick)
 
 Spec == Init /\ [][Next]_vars
